@@ -296,6 +296,7 @@ pub fn run(run: &Run) {
         // predicates (s -> s__s, p -> p_p, h-/t-copies), all present at once
         let clash: Vec<&str> = match kind {
             Kind::Program => vec![
+                "p :- not not not q.", "p :- not not not not q.", ":- not not not p(X), q(X).", "{p} :- q, not not not r(1).",
                 "a. a__s. p(a).", "a. a__s. p(ha).", "a. a__s. a__s__s. p(a). p(a__s).", "ha. ha__s. ta. p(ha). p(ta).",
                 "aux(X) :- q(X). aux_p(X) :- aux(X). aux_p_p(X) :- aux_p(X). out(X) :- aux_p_p(X).", "p(V1) :- q(V1), q(V2), q(V3), V1 != V2.",
             ],
